@@ -644,7 +644,7 @@ func originsAcross(v ssa.Value, out map[ssa.Value]bool, depth int) {
 					idx = i
 				}
 			}
-			sites := gCallSitesOf[h]
+			sites := sitesOf(h)
 			if idx >= 0 && len(sites) > 0 {
 				for _, s := range sites {
 					if args := s.Common().Args; idx < len(args) {
@@ -656,4 +656,26 @@ func originsAcross(v ssa.Value, out map[ssa.Value]bool, depth int) {
 		}
 		out[r] = true
 	})
+}
+
+
+// sameOriginSets: a and b (values in different functions, one of them in a helper the reference tree does
+// not have) have exactly the same origins — reaching definitions inside each function, parameters of new
+// helpers followed to the arguments of their call sites in the current binding context.
+func sameOriginSets(a, b ssa.Value) bool {
+	if len(gNewFuncs) == 0 {
+		return false
+	}
+	oa, ob := map[ssa.Value]bool{}, map[ssa.Value]bool{}
+	originsAcross(a, oa, 4)
+	originsAcross(b, ob, 4)
+	if len(oa) == 0 || len(oa) != len(ob) {
+		return false
+	}
+	for k := range oa {
+		if !ob[k] {
+			return false
+		}
+	}
+	return true
 }
